@@ -13,8 +13,9 @@ call (no factory-scope iterator read, no factory-scope object mutated, no
 nonlocal).
 Round 4: the couplers' factory prologues (args / kwds defaults) agree with their
 reference.
-NOT decided: window arithmetic of the fixed-point test under non-idempotent
-members, convergence within maxiter.
+The window of and_'s fixed-point test spans n applications (n+1 history entries,
+the input included in the first pass).
+NOT decided: convergence within maxiter.
 """
 import ast
 
@@ -29,7 +30,7 @@ CN = 'mystic.constraints'
 
 # success test of each combinator, per success return in source order   [and e is None]
 FIXED = {
-    'and_': ['all((xi == x[-1] for xi in x[1:]))', 'all((xi == x[-1] for xi in x[-n:]))'],
+    'and_': ['all((xi == x[-1] for xi in x))', 'all((xi == x[-1] for xi in x[-(n + 1):]))'],
     'or_': ['x[-1] == x[0]', 'x[-1] == x[-(n + 1)]'],
     'not_': ['constraint(x[:]) != x'],
 }
@@ -223,3 +224,35 @@ def combinators_keep_no_state_between_calls(ctx):
                     node if hasattr(node, 'lineno') else f.node)
         if not found:
             ctx.ok('%s#per-call-state' % name, 'no iterator, mutation or nonlocal of the factory scope inside the returned function', f, f.node)
+
+
+@rule('C17.f', min_instances=2)
+def and_success_window_spans_every_member(ctx):
+    """and_ applies its n members in turn, appending each result to a history; "no member changes the vector" means n consecutive applications without change, i.e. n+1 equal consecutive history entries: the first-pass test compares the WHOLE history (input included) with its last entry, the test inside the cycle the last n+1 entries (n = len(constraints)) - a window of n entries accepts a vector that one member produced and only the other n-1 left alone"""
+    outer = ctx.func('%s:and_' % CN)
+    f = _inner(ctx, 'and_')
+    nname = None
+    for st in outer.node.body:
+        if isinstance(st, ast.Assign) and len(st.targets) == 1 and isinstance(st.targets[0], ast.Name) and ''.join(unparse(st.value).split()) == 'len(%s)' % outer.node.args.vararg.arg:
+            nname = st.targets[0].id
+    ctx.need(nname, 'and_: the number of members is not bound to a local')
+    tests = []
+    for r in _returns(f):
+        if 'onexit' not in unparse(r.value):
+            continue
+        for tt, tr in guard_terms(r, stop=f.node):
+            for part in (tt[1:] if tt[0] == 'and' else [tt]):
+                if part[0] == 'call' and T.show(part[1]) == 'all' and len(part[2]) == 1 and part[2][0][0] in ('genexp', 'listcomp'):
+                    g = part[2][0]
+                    tests.append((r, g[2][0][1]))
+    ctx.need(len(tests) >= 2, 'and_: expected two history tests before a success return, found %d' % len(tests))
+    hist = tests[0][1][1] if tests[0][1][0] == 'sub' else tests[0][1]
+    want_loop = ('sub', hist, ('slice', T.simp(T.term(ast.parse('-(%s + 1)' % nname, mode='eval').body)), None, None))
+    whole = [t_ for r, t_ in tests if t_ == hist]
+    windows = [t_ for r, t_ in tests if t_ != hist]
+    ctx.check(len(whole) >= 1, 'and_#first-pass-window', 'the first pass compares the whole history, input included',
+              'and_ accepts the first pass although only the members\' outputs agree with each other (%s): the input itself may have been changed by the first member'
+              % [T.show(t_)[:40] for r, t_ in tests][:1], f, tests[0][0], statement='first-pass window excludes the input')
+    ctx.check(bool(windows) and all(t_ == want_loop for t_ in windows), 'and_#cycle-window', 'the cycle compares the last n+1 history entries (n applications)',
+              'and_ accepts a vector when the last %s history entries agree: that is only n-1 applications, so the member that produced the vector is never asked again'
+              % ([T.show(t_)[:40] for t_ in windows][:1]), f, tests[-1][0], statement='cycle window shorter than n+1 entries')
